@@ -159,6 +159,9 @@ TYPEMAP = {
     'std::vector<unsigned char>::const_iterator': 'vec_u8_iter', 'std::vector<unsigned char>::iterator': 'vec_u8_iter',
     '__gnu_cxx::__normal_iterator<unsigned char *, std::vector<unsigned char>>': 'vec_u8_iter',
     '__gnu_cxx::__normal_iterator<const unsigned char *, std::vector<unsigned char>>': 'vec_u8_iter',
+    'std::string::__const_iterator': 'str_t_iter', 'std::string::const_iterator': 'str_t_iter', 'std::string::iterator': 'str_t_iter',
+    '__gnu_cxx::__normal_iterator<char *, std::string>': 'str_t_iter',
+    '__gnu_cxx::__normal_iterator<const char *, std::string>': 'str_t_iter',
     'std::vector<unsigned char>::difference_type': 'long',
     '__gnu_cxx::__normal_iterator<unsigned char *, std::vector<unsigned char>>::difference_type': 'long',
     '__gnu_cxx::__normal_iterator<const unsigned char *, std::vector<unsigned char>>::difference_type': 'long',
@@ -744,6 +747,12 @@ class Emitter:
     def arg(self, a, ctx, callee_class_c=None, stl=False):
         """one call argument"""
         a0 = self.strip_noop(a)
+        fn = a0
+        while fn.get('kind') in ('ImplicitCastExpr', 'UnaryOperator', 'ParenExpr') and fn.get('inner'):
+            fn = fn['inner'][0]
+        if fn.get('kind') == 'DeclRefExpr' and fn.get('referencedDecl', {}).get('kind') in ('FunctionDecl', 'CXXMethodDecl'):
+            self.fire('E6_function_argument')
+            return self.fname(fn['referencedDecl'], fn)     # a named function passed as argument
         c = self.ty(a0)[0] if a0.get('type') else None
         scalar = c is not None and self.T.is_scalar(c) and not self.ty(a0)[1]
         if a0['kind'] == 'MaterializeTemporaryExpr' and scalar and not stl:
